@@ -50,10 +50,13 @@ fn scenarios(w: &WorkDir, thorough: bool) -> Vec<Scenario> {
 	w.write("table.json", b"{\"t\":{\"k\":\"v\"},\"x\":1}\n");
 	w.write("empty-tail.json", b"{\"k\":[1,2],\"e\":\"\"}\n");
 	w.write("empty-tail2.json", b"[\"x\",\"\"]\n{}\n[]\n\"\"\n");
+	// single documents whose TOML rendering is larger than the 8 KiB stdout buffer / a 64 KiB pipe
+	w.write("table9k.json", format!("{{\"t\":{{\"k\":\"v\"}},\"x\":\"{}\"}}\n", "y".repeat(9000)).as_bytes());
+	w.write("table200k.json", format!("{{\"t\":{{\"k\":\"v\"}},\"x\":\"{}\",\"z\":[{}1]}}\n", "y".repeat(70_000), "123456,".repeat(20_000)).as_bytes());
 	let targets: &[F] = &F::ALL;
 	for &to in targets {
 		let t = format!("-t{}", to.letter());
-		let files: &[&str] = if to == F::Toml { &["table.json"] } else if thorough { &["tiny.json", "near8k-a.json", "near8k-b.json", "near8k-c.json", "big.json", "docs8192.json"] } else { &["tiny.json", "near8k-b.json", "big.json", "docs8192.json"] };
+		let files: &[&str] = if to == F::Toml { &["table.json", "table9k.json", "table200k.json"] } else if thorough { &["tiny.json", "near8k-a.json", "near8k-b.json", "near8k-c.json", "big.json", "docs8192.json"] } else { &["tiny.json", "near8k-b.json", "big.json", "docs8192.json"] };
 		for f in files {
 			v.push(Scenario { name: format!("{}:file:{f}", to.name()), args: vec![t.clone(), f.to_string()], stdin: None });
 			if thorough || *f != "near8k-b.json" {
@@ -242,7 +245,7 @@ pub fn run(ctx: &Ctx) -> CheckOutput {
 	CheckOutput {
 		level: "fault_enumeration",
 		tally,
-		rule: "scenarios: every target x {40 B, 8 KiB-1/8 KiB/8 KiB+1, documents that fill the 8 KiB stdout buffer exactly, 3 x 64 KiB} outputs x file and stdin input, 1 and 3 inputs (incl. '-' in the middle). A dry run under the LD_PRELOAD shim counts the write(2)/writev(2) calls on fd 1 (J); then for EVERY call index j call j and all later ones fail with EPIPE / ENOSPC / EIO, and call j alone is short (1 byte; len-1). Oracle: EPIPE => killed by SIGPIPE with empty stderr, never exit 0; other errno => exit 1 with an 'xt error' line; short writes => exit 0 and the full output. Real pipe: the harness is the consumer, takes exactly k bytes, waits until /proc/<pid>/syscall shows xt blocked in write(1, ..), then closes (4 KiB pipe: k over 0..16384; 64 KiB pipe: around each capacity multiple), and a consumer gone before xt starts. /dev/full => exit 1 with a message.".into(),
+		rule: "scenarios: every target x {40 B, 8 KiB-1/8 KiB/8 KiB+1, documents that fill the 8 KiB stdout buffer exactly, 3 x 64 KiB} outputs (TOML: 40 B, 9 KB and 200 KB single documents) x file and stdin input, 1 and 3 inputs (incl. '-' in the middle). A dry run under the LD_PRELOAD shim counts the write(2)/writev(2) calls on fd 1 (J); then for EVERY call index j call j and all later ones fail with EPIPE / ENOSPC / EIO, and call j alone is short (1 byte; len-1). Oracle: EPIPE => killed by SIGPIPE with empty stderr, never exit 0; other errno => exit 1 with an 'xt error' line; short writes => exit 0 and the full output. Real pipe: the harness is the consumer, takes exactly k bytes, waits until /proc/<pid>/syscall shows xt blocked in write(1, ..), then closes (4 KiB pipe: k over 0..16384; 64 KiB pipe: around each capacity multiple), and a consumer gone before xt starts. /dev/full => exit 1 with a message.".into(),
 		exhaustive: thorough,
 		bounds: json!({"write_indices": "all", "close_points": if thorough { "every k in 0..=16384" } else { "every k in 0..=4200, every 13th up to 16384, buffer edges" }}),
 		assumptions: vec![
